@@ -385,7 +385,7 @@ pub fn digests(allow_two: bool) -> BoxedStrategy<Digests> {
     }
 }
 
-pub const SEGMENTS: &[&str] = &["a", "b", "src", "foo.py", "x.tar.gz", "d", "bar", "a.b", "ab", "srcfoo.py", "a/b"];
+pub const SEGMENTS: &[&str] = &["a", "b", "src", "foo.py", "x.tar.gz", "d", "bar", "a.b", "ab", "srcfoo.py", "a/b", "Foo.py", "A", "foo.pyc", "x.tar"];
 
 /// Normalised relative path from a small alphabet, with a low-weight exotic tail.
 pub fn relpath() -> BoxedStrategy<String> {
@@ -473,8 +473,18 @@ pub fn link_spec(rich_text: bool) -> BoxedStrategy<LinkSpec> {
                     let k = keys[(sel as usize / 2) % keys.len()].clone();
                     let nk = respelled_path(&k, how);
                     if !side.contains_key(&nk) {
-                        let v = side.remove(&k).unwrap();
-                        side.insert(nk, v);
+                        if sel & 0x80 != 0 {
+                            // both spellings side by side, with different digests (`d//k` next to `d/k`)
+                            let v = side[&k].clone();
+                            let other: Digests = [("sha256".to_string(), DIGEST_POOL_256[if v.get("sha256").map(|x| x.as_str()) == Some(DIGEST_POOL_256[0]) { 1 } else { 0 }].to_string())].into();
+                            if nk.starts_with("d//") {
+                                side.insert(format!("d/{}", k), v.clone());
+                            }
+                            side.insert(nk, other);
+                        } else {
+                            let v = side.remove(&k).unwrap();
+                            side.insert(nk, v);
+                        }
                     }
                 }
             }
